@@ -87,7 +87,14 @@ inline void checkInit(State &S, const Val &p, i128 nlo, i128 nhi, const Instruct
   if (!R.d || !R.d->trackInit) return;
   i128 olo, ohi; offsetBounds(S, p, olo, ohi);
   if (olo != ohi) return;                       // only exact addresses: no false alarms from blurred offsets
-  int64_t u = R.d->firstUnwritten(olo, olo + nlo);
+  std::vector<std::pair<int64_t, int64_t>> extra;
+  for (auto &t : R.d->writtenLinked) {
+    int r = std::get<1>(t);
+    if (r < 0 || r >= (int)S.roots.size()) continue;
+    i128 len = S.roots[r].lo + std::get<2>(t);
+    if (len > 0) extra.emplace_back(std::get<0>(t), (int64_t)std::min((i128)std::get<0>(t) + len, (i128)1 << 40));
+  }
+  int64_t u = R.d->firstUnwritten(olo, olo + nlo, &extra);
   if (u >= 0) alarm(S, "UNINIT", I, std::string(what) + ": reads " + R.name + "[" + i128s(u) + "], which this call has never written (result would depend on the object's previous content)");
 }
 
@@ -157,6 +164,26 @@ inline Val loadGlobalConst(State &S, const Region &R, Type *ty, i128 olo, i128 o
       if (auto *ci = dyn_cast_or_null<ConstantInt>(c)) cs.set((size_t)ci->getZExtValue()); else { cs.set(); break; }
     }
     return Val::charset(8, cs, P_CONST);
+  }
+  if (ty->isIntegerTy() && n >= 2 && n <= 8 && ohi - olo <= 262144) {
+    // wider elements at a blurred index: known bits and range over every element the index can select (step = element size,
+    // offsets restricted by the known bits of the pointer)
+    unsigned w = ty->getIntegerBitWidth();
+    APInt ones = APInt::getAllOnes(w), zeros = APInt::getAllOnes(w), mn = APInt::getMaxValue(w), mx = APInt(w, 0);
+    bool any = false, bad = false;
+    for (i128 o = olo; o <= ohi; o++) {
+      if (okb && !okb->isUnknown()) { APInt oa(64, (uint64_t)o); if (!(oa & okb->Zero).isZero() || (oa & okb->One) != okb->One) continue; }
+      else if ((o - olo) % n) continue;
+      Constant *c = ConstantFoldLoadFromConst(const_cast<Constant *>(init), ty, APInt(64, (uint64_t)o), *DLp);
+      auto *ci = dyn_cast_or_null<ConstantInt>(c);
+      if (!ci) { bad = true; break; }
+      const APInt &a = ci->getValue();
+      ones &= a; zeros &= ~a; if (a.ult(mn)) mn = a; if (a.ugt(mx)) mx = a; any = true;
+    }
+    if (any && !bad) {
+      KnownBits kb(w); kb.One = ones; kb.Zero = zeros;
+      return mkInt(w, ConstantRange::getNonEmpty(mn, mx + 1), kb, P_CONST);
+    }
   }
   return ty->isIntegerTy() ? Val::top(ty->getIntegerBitWidth()) : Val::unk();
 }
@@ -261,7 +288,9 @@ inline void doCopy(State &S, const Val &dst, const Val &src, Val n, const Instru
   ensureTracked(S, RD);
   i128 dlo, dhi; offsetBounds(S, dst, dlo, dhi);
   RegionData &D = RD.w();
-  D.noteWrite(dlo, dhi + std::min(nhi, (i128)1 << 40), false);
+  { bool exactDst = dlo == dhi;
+    D.noteWrite(dlo, dhi + std::min(nhi, (i128)1 << 40), false, !exactDst);
+    if (exactDst) { D.addWritten(dlo, dlo + std::min(nlo, (i128)1 << 40)); if (n.root >= 0 && nlo != nhi) D.addWrittenLinked(dlo, n.root, n.rk); } }
   if (!ok2 || src.k != Val::PTR || src.reg < 0) {
     ByteCell any; any.cs.set(); any.prov = P_OTHER;
     eraseScalars(D, dlo, dhi + nhi);
@@ -306,8 +335,11 @@ inline void doSet(State &S, const Val &dst, const Val &c, Val n, const Instructi
   Val c8 = c; if (c8.k == Val::INT && c8.w > 8) { int nc; c8 = castop(S, Instruction::Trunc, c8, 8, Type::getInt8Ty(M->getContext())); (void)nc; }
   ByteCell cell = cellOfVal(c8, 0);
   { bool isNul = cell.cs.count() == 1 && cell.cs[0] && nlo >= 1;
-    if (isNul) D.noteWrite(dlo, dhi + 1, true); else D.noteWrite(dlo, dhi + std::min(nhi, (i128)1 << 40), false);
-    D.addWritten(dlo, dhi + std::min(nhi, (i128)1 << 40)); }
+    // a fill at an exact address initialises its certain part only: [dlo, dlo+nlo), or up to a length linked to a root
+    bool exactDst = dlo == dhi;
+    if (isNul) D.noteWrite(dlo, dhi + 1, true, !exactDst); else D.noteWrite(dlo, dhi + std::min(nhi, (i128)1 << 40), false, !exactDst);
+    if (exactDst) { D.addWritten(dlo, dlo + std::min(nlo, (i128)1 << 40)); if (n.root >= 0 && nlo != nhi) D.addWrittenLinked(dlo, n.root, n.rk); }
+    else D.addWritten(dlo, dhi + std::min(nhi, (i128)1 << 40)); }
   eraseScalars(D, dlo, dhi + nhi);
   i128 cap = (i128)1 << 40;
   if (dlo == dhi) { D.fillRange(dlo, dlo + std::min(nlo, cap), cell); if (nhi > nlo) D.joinRange(dlo + nlo, dlo + std::min(nhi, cap), cell); }
